@@ -621,6 +621,17 @@ func (t *RaftTransaction) ListPage(ctx context.Context, prefix string, after str
 		presentKeys = append(presentKeys, nextPresentEntry)
 	}
 	verifyLimit := len(presentKeys)
+	if nextPresentEntry == "" && verifyLimit > 0 {
+		// We did not record a look-ahead entry: the cursor ran out of entries
+		// before the requested limit was reached, so presentKeys holds every
+		// entry storage had. Re-listing with exactly that many slots at apply
+		// time would stop right after the last one and miss an entry another
+		// writer appended behind it (a phantom). Verify with one extra slot:
+		// unchanged storage still yields exactly presentKeys, an appended
+		// entry shows up in the extra slot and fails the hash comparison. An
+		// empty listing keeps verifyLimit 0, which is verified without limit.
+		verifyLimit++
+	}
 	listParams, contentsHash, err := createListVerificationEntry(prefix, after, verifyLimit, presentKeys)
 	if err != nil {
 		return nil, err
